@@ -115,7 +115,8 @@ func (p *MultilineAction) Do(event *pipeline.Event) pipeline.ActionResult {
 	predictedLen := p.eventSize + predictionLookahead
 	shouldSplit := predictedLen > p.config.SplitEventSize
 	logFragmentLen := len(logFragment)
-	isEnd := logFragment[logFragmentLen-3:logFragmentLen-1] == newLine
+	// an empty partial fragment (`""`, e.g. the CRI line "... stdout P " + "\n") is shorter than the tail being tested
+	isEnd := logFragmentLen >= 3 && logFragment[logFragmentLen-3:logFragmentLen-1] == newLine
 	if !isEnd && !shouldSplit {
 		sizeAfterAppend := len(p.eventBuf) + len(logFragment)
 		// check buffer size before append
